@@ -1183,6 +1183,8 @@ def rule_voicinginterp(ctx):
 
 
 RULES = [
+    ("C01.DURATIONBOUND", 2, common.shared("c14", "rule_facets", "C01.DURATIONBOUND", keep=lambda o: o.construct.startswith("alignment.percentage_correct_segments"))),
+    ("C01.COUNTFORM", 1, common.shared("c18", "rule_countform", "C01.COUNTFORM")),
     ("C01.IMPULSETRAIN", 3, common.shared("c04", "rule_impulsetrain", "C01.IMPULSETRAIN")),
     ("C01.RANKPAIRS", 6, common.shared("c17", "rule_rankpairs", "C01.RANKPAIRS")),
     ("C01.OVERALLFORM", 3, common.shared("c04", "rule_overallform", "C01.OVERALLFORM")),
